@@ -156,6 +156,19 @@ Section PencilScale.
     rewrite HM, (H1 i j Hi Hj). rewrite !mmul_diag_r by assumption. rewrite HM. ring.
   Qed.
 
+  (* ---------------- the reference matrices are symmetric ---------------- *)
+  Lemma XMXt_sym2_sym N (X M : mat F) a b : XMXt N X (sym2 M) a b = XMXt N X (sym2 M) b a.
+  Proof. rewrite !XMXt_sym2. ring. Qed.
+
+  Lemma XMXt_mI_sym N (X : mat F) a b : XMXt N X mI a b = XMXt N X mI b a.
+  Proof. rewrite !XMXt_mI. apply sumn_ext. intros; ring. Qed.
+
+  Lemma XMXt_mdiag_sym N (X : mat F) v a b : XMXt N X (mdiag v) a b = XMXt N X (mdiag v) b a.
+  Proof. rewrite !XMXt_mdiag. apply sumn_ext. intros; ring. Qed.
+
+  Lemma XMXt_Jn_sym N (X : mat F) a b : XMXt N X (Jn N) a b = XMXt N X (Jn N) b a.
+  Proof. rewrite !XMXt_Jn, !XMXt_mconst, (XMXt_mI_sym N X a b). ring. Qed.
+
 End PencilScale.
 
 (* ====================== the decision procedure on the FULL tables (Qc) ====================== *)
@@ -223,3 +236,25 @@ Lemma e_run_full :
   exists lhs rhs, run_construct VF42 LPP 2 2 [[qz 1; qz 1]; [qz 0; qz 1]] wW [qz 1; qz 1] = Ok (lhs, rhs) /\
                   spec_full_b LPP 2 2 [[qz 1; qz 1]; [qz 0; qz 1]] wW [qz 1; qz 1] lhs rhs = true.
 Proof. eexists. eexists. split; vm_compute; reflexivity. Qed.
+
+(* ---------------- the two decision procedures are coherent: full tables right -> the reader's view right ---------------- *)
+Lemma ref_lhs_sym m N (X : mat Qc) (W : sparse Qc) a b : ref_lhs m N X W a b = ref_lhs m N X W b a.
+Proof. destruct m; cbn [ref_lhs]; apply XMXt_sym2_sym. Qed.
+
+Lemma ref_rhs_sym m N (X : mat Qc) (dv : vec Qc) a b : ref_rhs m N X dv a b = ref_rhs m N X dv b a.
+Proof.
+  destruct m; cbn [ref_rhs]; [apply XMXt_mI_sym|apply XMXt_Jn_sym|apply XMXt_mdiag_sym].
+Qed.
+
+Theorem spec_full_implies_seen m N D Xl W dvl lhs rhs :
+  spec_full_b m N D Xl W dvl lhs rhs = true -> spec_construct_b m N D Xl W dvl lhs rhs = true.
+Proof.
+  unfold spec_full_b, spec_construct_b, tables_full_b, tables_seen_b, seen_tables.
+  rewrite ref_pencil_tables. cbn [fst snd]. rewrite !andb_true_iff. intros [[H1 H2] [H3 H4]].
+  apply mlist_eqb_ok in H3. apply mlist_eqb_ok in H4. subst lhs rhs.
+  split; [split; assumption|]. split; apply mlist_eqb_ok; apply mtab_ext.
+  - eapply meq_trans; [apply read_lower_mof_mtab|]. intros i j _ _.
+    apply read_lower_of_msym_all. intros a b. apply ref_lhs_sym.
+  - eapply meq_trans; [apply read_lower_mof_mtab|]. intros i j _ _.
+    apply read_lower_of_msym_all. intros a b. apply ref_rhs_sym.
+Qed.
